@@ -221,8 +221,10 @@ Fixpoint p_dtype (tol : tolerance) (pad_ok : bool) (fuel : nat) (bs : bytes) : o
            members (if ver =? 3 then bytes_needed size else 4%nat) (N.to_nat bits) r);;
       Ok (DCompound ver size ms, tg, r2)
     else if cls =? 7 then
-      (* bits: 0-3 type (0 object reference, 1 dataset region reference); no properties *)
-      _ <- guard (bits <? 2);;
+      (* bits: 0-3 type (0 object reference, 1 dataset region reference; since format revision of library 1.12: 2 object reference,
+         3 dataset region reference, 4 attribute reference of the revised encoding), 4-7 version of the revised reference encoding;
+         no properties *)
+      _ <- guard ((bits <? 2) || ((bits_of bits 0 4 <? 5) && (bits <? 256)));;
       Ok (DReference ver size bits, [], r)
     else if cls =? 8 then
       (* bits: 0-15 number of members; properties: base type, names, values *)
